@@ -298,20 +298,22 @@ def _mk_call(fn, *args):
 
 
 class State:
-    def __init__(self, env=None, conds=None, stores=None, calls=None):
+    def __init__(self, env=None, conds=None, stores=None, calls=None, events=None):
         self.env = dict(env or {})
         self.conds = list(conds or [])
         self.stores = list(stores or [])      # (target expr, op or None, value expr, conds)
         self.calls = list(calls or [])        # (call expr, conds)
+        self.events = list(events or [])      # raw (unsubstituted) expressions in the order they are evaluated on this path
 
     def fork(self):
-        return State(self.env, self.conds, self.stores, self.calls)
+        return State(self.env, self.conds, self.stores, self.calls, self.events)
 
 
 class Outcome:
     def __init__(self, kind, state, value, node):
         self.kind, self.value, self.node = kind, value, node
         self.env, self.conds, self.stores, self.calls = state.env, list(state.conds), list(state.stores), list(state.calls)
+        self.events = list(getattr(state, 'events', []))
 
     def cond_text(self):
         return [(norm(t), p) for t, p in self.conds]
@@ -487,6 +489,12 @@ class SymExec:
 
     def stmt(self, n, st):
         self.evals += 1
+        if isinstance(n, (ast.Expr, ast.Assign, ast.AugAssign, ast.AnnAssign, ast.Return)) and getattr(n, 'value', None) is not None:
+            st.events.append(n.value)
+        elif isinstance(n, (ast.If, ast.While)):
+            st.events.append(n.test)
+        elif isinstance(n, ast.For):
+            st.events.append(n.iter)
         if isinstance(n, ast.Expr):
             if isinstance(n.value, ast.Constant):
                 return [st]
@@ -584,6 +592,7 @@ class SymExec:
                         merged.env[name] = self._cap(name, ast.IfExp(test=clone(test), body=va, orelse=vb))
                 merged.stores = a.stores + b.stores[len(st.stores):]
                 merged.calls = a.calls + b.calls[len(st.calls):]
+                merged.events = a.events + b.events[len(st.events) + 1:]
                 return [merged]
             return ra + rb
         a, b = st.fork(), st.fork()
@@ -634,6 +643,7 @@ class SymExec:
         if res:
             out.stores = res[0].stores
             out.calls = res[0].calls
+            out.events = res[0].events
         for t in tnames:
             out.env[t] = _mk_call('__after_loop__', ast.Constant(value=t))
         return [out] if not n.orelse else self.block(n.orelse, [out])
@@ -4317,4 +4327,589 @@ def rule_wire_forms(repo):
         raise AnalysisError(f"R-C12-wire-forms: record pipeline not recognised ({n_rebuild} rebuild stages, {n_filter} filter stages)")
     r.evaluations = n + n_rebuild + n_filter
     r.require_floor(2 + 2 + 3)
+    return r
+
+
+# ---------------------------------------------------------------------------
+def eval_order_calls(e):
+    """Call nodes of an expression in Python evaluation order (callee object, then arguments, then the call)"""
+    out = []
+
+    def go(n):
+        if isinstance(n, ast.Call):
+            go(n.func)
+            for a in n.args:
+                go(a)
+            for k in n.keywords:
+                go(k.value)
+            out.append(n)
+        elif isinstance(n, (ast.Lambda, ast.ListComp, ast.GeneratorExp, ast.SetComp, ast.DictComp)):
+            for ch in ast.iter_child_nodes(n):
+                go(ch)
+        elif isinstance(n, ast.AST):
+            for ch in ast.iter_child_nodes(n):
+                go(ch)
+    go(e)
+    return out
+
+
+def rule_index_queue(repo, backend):
+    r = RuleResult('R-tr-index-queue', f"[{backend}] array indices that are pending in the visitor's shared index queue belong to the "
+                                       f"expression being built: while they are pending (after the base was visited / an index was "
+                                       f"queued, before the flush) no other sub-expression is translated")
+    lk = linker(repo)
+    vis = tov_visitor(repo, backend)
+    n = 0
+    # methods that run: effective handlers and what they reach through super()
+    todo = []
+    for name, (c, f) in sorted(lk.effective_methods(vis).items()):
+        if not name.startswith('visit_'):
+            continue
+        for cc, ff in lk.all_defs(vis, name):
+            todo.append((cc, ff))
+            if not any(is_passthrough(x, name) for x in ast.walk(ff) if isinstance(x, ast.Call)):
+                break
+    queue_attr = None
+    for c, f in todo:
+        me = f.args.args[0].arg
+        nd = f.args.args[1].arg if len(f.args.args) > 1 else 'node'
+        src = ast.dump(f)
+        if '_q' not in src:
+            continue
+        ex, outs = sym_run(f, rename=False)
+        reported = set()
+        had = False
+        for o in outs:
+            if o.kind not in ('return', 'fall'):
+                continue
+            seq = []
+            for ev_ in o.events:
+                for call in eval_order_calls(ev_):
+                    fn = call.func
+                    if not isinstance(fn, ast.Attribute):
+                        continue
+                    if isinstance(fn.value, ast.Name) and fn.value.id == me and fn.attr.startswith('visit') and len(call.args) >= 1 \
+                            and isinstance(call.args[0], ast.Attribute) and norm(call.args[0].value) == nd:
+                        seq.append(('V', call.args[0].attr, call))
+                    elif isinstance(fn.value, ast.Attribute) and norm(fn.value.value) == me and fn.value.attr.endswith('_q') \
+                            and fn.attr in ('append', 'appendleft', 'extend', 'extendleft', 'insert'):
+                        seq.append(('PUSH', fn.value.attr, call))
+                    elif isinstance(fn.value, ast.Name) and fn.value.id == me and 'unpacked_q' in fn.attr:
+                        seq.append(('FLUSH', fn.attr, call))
+            if not any(k in ('PUSH', 'FLUSH') for k, _, _ in seq):
+                continue
+            had = True
+            pending = None
+            viol = None
+            for kind, what, call in seq:
+                if kind == 'PUSH':
+                    pending = pending or f"index queued by {norm(call)[:50]}"
+                elif kind == 'FLUSH':
+                    pending = None
+                elif kind == 'V':
+                    if what == 'value':
+                        pending = pending or f"indices left pending by the base {norm(call)}"
+                    elif pending is not None and viol is None:
+                        viol = (what, pending, call)
+            order = ' ; '.join(f"visit({w})" if k == 'V' else k.lower() for k, w, _ in seq)
+            cons = f"{f.name}: {order}"
+            if viol:
+                if cons not in reported:
+                    reported.add(cons)
+                    what, pend, call = viol
+                    r.bad(c.mod, fq(c, f), cons, f"{nd}.{what} is translated while the queue still holds {pend}: the nested expression "
+                          f"flushes the queue into its own text, e.g. s.lane[1].data[ s.lane[0].sel ] becomes "
+                          f"lane__data[ lane__sel[0][1] ] instead of lane__data[1][ lane__sel[0] ]", call.lineno)
+            elif cons not in reported:
+                reported.add(cons)
+                r.ok(c.mod, fq(c, f), cons)
+                n += 1
+    if not r.instances:
+        r.ok(vis.mod, vis.name, "no handler of this visitor shares a pending-index queue between sub-expressions", nontrivial=False)
+    r.evaluations = n
+    r.require_floor(4 if backend == 'sv' else 1)
+    return r
+
+
+# ---------------------------------------------------------------------------
+_FRESH_CALLS = ('dict', 'set', 'list', 'OrderedDict', 'collections.OrderedDict', 'defaultdict')
+
+
+def _is_fresh_container(e):
+    if isinstance(e, (ast.Dict, ast.Set, ast.List)) and not (getattr(e, 'keys', None) or getattr(e, 'elts', None)):
+        return True
+    return isinstance(e, ast.Call) and norm(e.func) in _FRESH_CALLS and not e.args
+
+
+def dedup_scope_findings(translate, clear_defs, emit_names=('rtlir_tr_component',)):
+    """For every container whose membership test guards the emission of a module definition inside `translate`
+    (closures included): is it created afresh by this translate() call?  -> list of (container text, ok, why, node)"""
+    me = translate.args.args[0].arg
+    out = []
+    funcs = [translate] + _nested_funcs(translate)
+    for g in funcs:
+        for call in [x for x in walk_no_nested(g) if isinstance(x, ast.Call) and isinstance(x.func, ast.Attribute)
+                     and x.func.attr in emit_names]:
+            for gd in guards_of(call):
+                if gd.kind != 'if':
+                    continue
+                for t in ast.walk(gd.test):
+                    if isinstance(t, ast.Compare) and len(t.ops) == 1 and isinstance(t.ops[0], (ast.In, ast.NotIn)):
+                        out.append(_judge_container(t.comparators[0], g, translate, clear_defs, me, call))
+    return out
+
+
+def _judge_container(cexpr, g, translate, clear_defs, me, at):
+    txt = norm(cexpr)
+
+    def fresh_assign_in(fn, attr_txt, self_name):
+        for n in walk_no_nested(fn):
+            if isinstance(n, ast.Assign) and any(norm(t).replace(self_name + '.', 'SELF.', 1) == attr_txt for t in n.targets) \
+                    and _is_fresh_container(n.value):
+                if not [x for x in guards_of(n) if x.kind in ('if', 'loop', 'except')]:
+                    return True
+        return False
+    # a parameter of a closure: follow it to the arguments given by translate()
+    if isinstance(cexpr, ast.Name) and g is not translate and cexpr.id in [a.arg for a in g.args.args]:
+        idx = [a.arg for a in g.args.args].index(cexpr.id)
+        args = []
+        for fn in [translate] + _nested_funcs(translate):
+            for c_ in [x for x in walk_no_nested(fn) if isinstance(x, ast.Call) and isinstance(x.func, ast.Name) and x.func.id == g.name]:
+                if idx < len(c_.args):
+                    a = c_.args[idx]
+                    if not (fn is g and isinstance(a, ast.Name) and a.id == cexpr.id):
+                        args.append((fn, a))
+        if not args:
+            return (txt, False, "the container is a parameter whose origin cannot be found", at)
+        res = [_judge_container(a, fn, translate, clear_defs, me, at) for fn, a in args]
+        bad = [x for x in res if not x[1]]
+        return (txt + ' <- ' + ', '.join(x[0] for x in res), not bad, bad[0][2] if bad else 'created by this translate() call', at)
+    if isinstance(cexpr, ast.Name):
+        # local of translate() (closure variable) assigned a fresh container
+        rv = None
+        for n in walk_no_nested(translate):
+            if isinstance(n, ast.Assign) and any(isinstance(t, ast.Name) and t.id == cexpr.id for t in n.targets):
+                rv = n
+        if rv is not None and _is_fresh_container(rv.value) and not [x for x in guards_of(rv) if x.kind in ('if', 'loop')]:
+            return (txt, True, 'local container of translate()', at)
+        return (txt, False, f"`{txt}` is not a container created inside translate() (module / class level state)", at)
+    if norm(cexpr).startswith(me + '.'):
+        attr_txt = 'SELF.' + norm(cexpr)[len(me) + 1:]
+        if fresh_assign_in(translate, attr_txt, me):
+            return (txt, True, 'reset unconditionally in translate()', at)
+        for cd in clear_defs:
+            if fresh_assign_in(cd, attr_txt, cd.args.args[0].arg) and any(
+                    isinstance(x, ast.Call) and norm(x.func) == f"{me}.clear" and not [y for y in guards_of(x) if y.kind in ('if', 'loop')]
+                    for x in walk_no_nested(translate)):
+                return (txt, True, 'reset by clear(), which translate() calls unconditionally', at)
+        return (txt, False, f"`{txt}` lives on the translator object and is not reset at the start of translate()", at)
+    return (txt, False, f"origin of `{txt}` not recognised", at)
+
+
+_DEDUP_EXAMPLE = """
+class Tr:
+  def translate( s, top ):
+    def translate_component( m, components ):
+      name = s.names[m]
+      if name not in s._generated:
+        s._generated.add( name )
+        components[name] = s.rtlir_tr_component( m )
+    if not hasattr( s, '_generated' ):
+      s._generated = set()
+    s.out = {}
+    translate_component( top, s.out )
+"""
+
+
+def rule_dedup_scope(repo, backend):
+    r = RuleResult('R-tr-dedup-scope', f"[{backend}] the container consulted to skip emitting a module definition is created by the "
+                                       f"translate() call whose output it filters (state surviving translate() makes a later output "
+                                       f"file instantiate modules it does not define)")
+    lk = linker(repo)
+    top = backend_class(repo, backend)
+    res = lk.find(top, 'translate')
+    if res is None:
+        raise AnalysisError("anchor vanished: translate")
+    c, f = res
+    clear_defs = [ff for cc, ff in lk.all_defs(top, 'clear')]
+    found = dedup_scope_findings(f, clear_defs)
+    if not found:
+        raise AnalysisError(f"{fq(c, f)}: no de-duplication guard around rtlir_tr_component found")
+    for txt, ok, why, at in found:
+        cons = f"skip definition if name in {txt}"
+        if ok:
+            r.ok(c.mod, fq(c, f), cons, note=why)
+        else:
+            r.bad(c.mod, fq(c, f), cons, f"{why}: after a first translate() the names stay recorded, so a second translate() on the same "
+                  f"translator (VerilogTranslationPass.enable on two sub-trees) skips the definition of a module its output "
+                  f"instantiates", at.lineno)
+    # embedded positive example (expected finding count on the real tree is zero)
+    ex = ast.parse(_DEDUP_EXAMPLE)
+    from .loader import _set_parents
+    _set_parents(ex)
+    tf = ex.body[0].body[0]
+    probe = dedup_scope_findings(tf, [])
+    if not probe or all(ok for _, ok, _, _ in probe):
+        raise AnalysisError("R-tr-dedup-scope: the embedded example of translator-lifetime de-duplication state was not flagged")
+    r.evaluations = len(found) + len(probe)
+    r.require_floor(1)
+    return r
+
+
+# ===========================================================================
+# I. state-lifetime and text-integrity rules over the back-end sources
+# ===========================================================================
+def loop_stale_uses(fn):
+    """(var, use node, loop) for loads inside a for-loop body not dominated by an in-iteration definition although the
+    variable is (plainly) assigned somewhere in that loop body"""
+    out = []
+    def names_stored(t):
+        return {x.id for x in ast.walk(t) if isinstance(x, ast.Name) and isinstance(x.ctx, ast.Store)}
+    def loads(e, bound=()):
+        res = []
+        def go(n, bound):
+            if isinstance(n, (ast.ListComp, ast.SetComp, ast.GeneratorExp, ast.DictComp)):
+                b = set(bound)
+                for g in n.generators:
+                    go(g.iter, b); b |= names_stored(g.target)
+                    for c in g.ifs: go(c, b)
+                for ch in ([n.elt] if not isinstance(n, ast.DictComp) else [n.key, n.value]): go(ch, b)
+                return
+            if isinstance(n, ast.Lambda):
+                go(n.body, set(bound) | {a.arg for a in n.args.args}); return
+            if isinstance(n, (ast.FunctionDef, ast.ClassDef)): return
+            if isinstance(n, ast.Name) and isinstance(n.ctx, ast.Load) and n.id not in bound:
+                res.append(n)
+            for ch in ast.iter_child_nodes(n): go(ch, bound)
+        go(e, set(bound)); return res
+    def plain_assigned_in(body):
+        vs = set()
+        for st in body:
+            for n in walk_no_nested(st):
+                if isinstance(n, ast.Assign):
+                    tg = set()
+                    for t in n.targets: tg |= names_stored(t)
+                    used = {x.id for x in loads(n.value)}
+                    vs |= {v for v in tg if v not in used}
+                elif isinstance(n, (ast.For,)):
+                    pass
+        return vs
+    def block(stmts, defined, watch, loop):
+        d = set(defined)
+        for st in stmts:
+            d = stmt(st, d, watch, loop)
+        return d
+    def check(expr, d, watch, loop):
+        for n in loads(expr):
+            if n.id in watch and n.id not in d:
+                out.append((n.id, n, loop))
+    def stmt(st, d, watch, loop):
+        if isinstance(st, ast.Assign):
+            check(st.value, d, watch, loop)
+            for t in st.targets:
+                for x in ast.walk(t):
+                    if not isinstance(x, ast.Name): pass
+                if not isinstance(t, ast.Name) and not isinstance(t, (ast.Tuple, ast.List)): check(t, d, watch, loop)
+                d = d | names_stored(t)
+            return d
+        if isinstance(st, ast.AugAssign):
+            check(st.value, d, watch, loop)
+            if isinstance(st.target, ast.Name):
+                if st.target.id in watch and st.target.id not in d: out.append((st.target.id, st.target, loop))
+            else: check(st.target, d, watch, loop)
+            return d | names_stored(st.target)
+        if isinstance(st, ast.If):
+            check(st.test, d, watch, loop)
+            a = block(st.body, d, watch, loop); b = block(st.orelse, d, watch, loop)
+            ea, eb = always_exits(st.body), bool(st.orelse) and always_exits(st.orelse)
+            if ea and eb: return a | b
+            if ea: return b
+            if eb: return a
+            return a & b
+        if isinstance(st, ast.For):
+            check(st.iter, d, watch, loop)
+            inner_watch = plain_assigned_in(st.body)
+            block(st.body, d | names_stored(st.target), set(watch) | inner_watch, st)   # nested loop: own iteration scope for its vars
+            # names of the nested loop's body are (re)checked with the nested loop as owner; outer `defined` unchanged
+            block(st.orelse, d, watch, loop)
+            return d
+        if isinstance(st, ast.While):
+            check(st.test, d, watch, loop); block(st.body, d, watch, loop); return d
+        if isinstance(st, ast.With):
+            for it in st.items:
+                check(it.context_expr, d, watch, loop)
+                if it.optional_vars is not None: d = d | names_stored(it.optional_vars)
+            return block(st.body, d, watch, loop)
+        if isinstance(st, ast.Try):
+            a = block(st.body, d, watch, loop)
+            hs = [block(h.body, d, watch, loop) for h in st.handlers]
+            res = a
+            for h in hs: res = res & h
+            return block(st.finalbody, res, watch, loop) if st.finalbody else res
+        if isinstance(st, (ast.FunctionDef, ast.ClassDef)):
+            return d | {st.name}
+        for ch in ast.iter_child_nodes(st):
+            if isinstance(ch, ast.expr): check(ch, d, watch, loop)
+        return d
+    for lp in [x for x in walk_no_nested(fn) if isinstance(x, ast.For)]:
+        # only outermost handling here: every loop is analysed as its own iteration scope
+        watch = plain_assigned_in(lp.body)
+        if not watch: continue
+        before = len(out)
+        block(lp.body, names_stored(lp.target), watch, lp)
+    # de-duplicate
+    seen, res = set(), []
+    for v, n, lp in out:
+        k = (v, n.lineno, n.col_offset)
+        if k not in seen:
+            seen.add(k); res.append((v, n, lp))
+    return res
+
+
+
+def backend_files(backend):
+    gen = [G_S1, G_S2, G_S3, G_S4, G_B1, GENERIC + 'behavioral/BehavioralTranslatorL2.py', G_RTLIR_TR,
+           GENERIC + 'BaseRTLIRTranslator.py']
+    sv = [x for x in SV_S[1:] + SV_B[1:]] + [SV_TR, 'pymtl3/passes/backends/verilog/util/utility.py']
+    ys = [x for x in YS_S[1:] + YS_B[1:]] + [YS_TR, YS_UTIL]
+    return gen + sv + (ys if backend == 'yosys' else [])
+
+
+def all_functions(mod):
+    out = []
+    for cn in mod.classes:
+        for mn, f in mod.methods(cn).items():
+            out.append((f"{cn}.{mn}", f))
+    for fn_, f in mod.functions.items():
+        out.append((fn_, f))
+    res = []
+    for q, f in sorted(out, key=lambda x: x[0]):
+        res.append((q, f))
+        for g in _nested_funcs(f):
+            res.append((f"{q}.{g.name}", g))
+    return res
+
+
+def rule_loop_state(repo, backend):
+    r = RuleResult('R-tr-loop-state', f"[{backend}] per-iteration state of the generator loops is defined in the same iteration on "
+                                      f"every path before it is used (no value leaking from the previous port / field / member)")
+    n = 0
+    for rel in backend_files(backend):
+        m = repo.mod(rel)
+        for q, g in all_functions(m):
+            loops = [x for x in walk_no_nested(g) if isinstance(x, ast.For)]
+            if not loops:
+                continue
+            stale = loop_stale_uses(g)
+            flagged = set()
+            for v, node, lp in stale:
+                # running minimum / flag: the update is conditioned on the variable's own previous value
+                asg = [a for a in ast.walk(lp) if isinstance(a, ast.Assign) and any(isinstance(t, ast.Name) and t.id == v for t in a.targets)]
+                if asg and all(any(gd.kind == 'if' and v in {x.id for x in ast.walk(gd.test) if isinstance(x, ast.Name)}
+                                   for gd in guards_of(a, stop=lp)) for a in asg):
+                    continue
+                key = (v, norm(lp.target))
+                if key in flagged:
+                    continue
+                flagged.add(key)
+                r.bad(m, q, f"`{v}` in `for {norm(lp.target)} in {norm(lp.iter)[:50]}`: used in {norm(stmt_of_node(node))[:80]}",
+                      f"`{v}` is assigned only on some paths of an iteration and read afterwards: for an item that does not take the "
+                      f"assigning branch the value of the PREVIOUS item is used (e.g. the array type of a port list leaks into the next "
+                      f"scalar member, which is then flattened as an array)", node.lineno)
+            for lp in loops:
+                n += 1
+                if not any(l is lp for _, _, l in stale):
+                    r.ok(m, q, f"for {norm(lp.target)} in {norm(lp.iter)[:60]}", nontrivial=False)
+    r.evaluations = n
+    r.require_floor(55 if backend == 'sv' else 110)
+    return r
+
+
+def stmt_of_node(n):
+    cur = n
+    while cur is not None and not isinstance(cur, ast.stmt):
+        cur = parent(cur)
+    return cur if cur is not None else n
+
+
+# ---------------------------------------------------------------------------
+_MUTABLE_CALLS = ('dict', 'set', 'list', 'OrderedDict', 'collections.OrderedDict', 'defaultdict', 'collections.defaultdict', 'deque')
+
+
+def _is_mutable_container(e):
+    if isinstance(e, (ast.Dict, ast.Set, ast.List)):
+        return True
+    return isinstance(e, ast.Call) and norm(e.func) in _MUTABLE_CALLS
+
+
+def _name_only_key(e):
+    t = norm(e)
+    return bool(re.search(r"__name__|get_name\(\)|\bstr\(|\brepr\(|get_class\(\)", t)) or isinstance(e, ast.JoinedStr)
+
+
+def memo_scope_findings(tree, method_index=None):
+    """class- / module-level mutable containers that translator code writes to: (where, container, key text, ok, why, node)"""
+    out = []
+    # module level
+    mod_level = {}
+    for st in tree.body:
+        if isinstance(st, ast.Assign) and len(st.targets) == 1 and isinstance(st.targets[0], ast.Name) and _is_mutable_container(st.value):
+            mod_level[st.targets[0].id] = st
+    classes = [c for c in ast.walk(tree) if isinstance(c, ast.ClassDef)]
+    cls_level = {}
+    for c in classes:
+        for st in c.body:
+            if isinstance(st, ast.Assign) and len(st.targets) == 1 and isinstance(st.targets[0], ast.Name) and _is_mutable_container(st.value):
+                cls_level[(c.name, st.targets[0].id)] = st
+    cls_names = {k[1] for k in cls_level}
+    for fn in [f for f in ast.walk(tree) if isinstance(f, ast.FunctionDef)]:
+        me = fn.args.args[0].arg if fn.args.args else None
+        rebinds = set()
+        for n in ast.walk(fn):
+            if isinstance(n, ast.Assign):
+                for t in n.targets:
+                    if isinstance(t, ast.Attribute) and isinstance(t.value, ast.Name) and t.value.id == me and t.attr in cls_names:
+                        rebinds.add(t.attr)
+        for n in ast.walk(fn):
+            cont = key = None
+            if isinstance(n, ast.Assign) and len(n.targets) == 1 and isinstance(n.targets[0], ast.Subscript):
+                cont, key = n.targets[0].value, n.targets[0].slice
+            elif isinstance(n, ast.Call) and isinstance(n.func, ast.Attribute) and n.func.attr in ('add', 'append', 'setdefault', 'update', 'appendleft') and n.args:
+                cont, key = n.func.value, n.args[0]
+            if cont is None:
+                continue
+            cname = None
+            if isinstance(cont, ast.Name) and cont.id in mod_level and cont.id not in {a.arg for a in fn.args.args}:
+                shadow = any(isinstance(x, ast.Assign) and any(isinstance(t, ast.Name) and t.id == cont.id for t in x.targets) for x in ast.walk(fn))
+                if not shadow:
+                    cname = f"module-level {cont.id}"
+            elif isinstance(cont, ast.Attribute) and cont.attr in cls_names:
+                base = norm(cont.value)
+                if (base == me and cont.attr not in rebinds) or base in {c.name for c in classes} or base.startswith('type(') or base.endswith('.__class__'):
+                    cname = f"class-level {cont.attr}"
+            if cname is None:
+                continue
+            if isinstance(key, ast.Name):
+                rv = reaching_value(key.id, n)
+                kexpr = rv if rv is not None else key
+            else:
+                kexpr = key
+            bare = isinstance(kexpr, ast.Name) and kexpr.id in {a.arg for a in fn.args.args}
+            if bare and not _name_only_key(kexpr):
+                out.append((fn, cname, norm(kexpr), True, 'keyed by the object itself', n))
+            elif _name_only_key(kexpr):
+                out.append((fn, cname, norm(kexpr), False, f"keyed by a name only (`{norm(kexpr)[:60]}`): two different types with the same name "
+                            f"share one entry", n))
+            else:
+                out.append((fn, cname, norm(kexpr), False, "lives as long as the process and is not keyed by the object it describes", n))
+    return out
+
+
+_MEMO_EXAMPLE = """
+class Tr:
+  _struct_nbits = {}
+  def _get_struct_nbits( s, dtype ):
+    name = dtype.get_class().__name__
+    if name not in s._struct_nbits:
+      s._struct_nbits[ name ] = dtype.get_length()
+    return s._struct_nbits[ name ]
+"""
+
+
+def rule_memo_scope(repo, backend):
+    r = RuleResult('R-tr-memo-scope', f"[{backend}] no class- or module-level container is used by the translator as a memo for emitted "
+                                      f"text unless it is keyed by the described object itself (name-only keys alias different types; "
+                                      f"process-lifetime state makes the output depend on earlier translations)")
+    n = 0
+    for rel in backend_files(backend) + [RUTIL, 'pymtl3/passes/rtlir/rtype/RTLIRDataType.py'][:1]:
+        m = repo.mod(rel)
+        n += 1
+        fs = memo_scope_findings(m.tree)
+        for fn, cname, ktxt, ok, why, node in fs:
+            cons = f"{cname}[{ktxt[:60]}] written in {fn.name}"
+            if ok:
+                r.ok(m, qualname(fn), cons, note=why)
+            else:
+                r.bad(m, qualname(fn), cons, f"{cname} is written by translator code and {why}; what is emitted for one design then "
+                      f"depends on which designs were translated before in the same process (e.g. a wider struct of the same name gets "
+                      f"the narrower width)", node.lineno)
+        if not fs:
+            r.ok(m, '<module>', "no class- / module-level container is written by translator code", nontrivial=False)
+    from .loader import _set_parents
+    ex = ast.parse(_MEMO_EXAMPLE)
+    _set_parents(ex)
+    probe = memo_scope_findings(ex)
+    if not probe or all(x[3] for x in probe):
+        raise AnalysisError("R-tr-memo-scope: the embedded example of a class-level memo keyed by name was not flagged")
+    r.evaluations = n
+    r.require_floor(18 if backend == 'sv' else 28)
+    return r
+
+
+# ---------------------------------------------------------------------------
+_IDENT = 'I' * 40
+
+
+def _spec_truncates(spec):
+    """does the format spec shorten a 40-character identifier?  None when the spec is not applicable to strings"""
+    try:
+        return _IDENT not in format(_IDENT, spec)
+    except (ValueError, TypeError):
+        return None
+
+
+def rule_ident_intact(repo, backend):
+    r = RuleResult('R-tr-ident-intact', f"[{backend}] identifiers inserted into the emitted text may be padded / aligned but are never "
+                                        f"truncated (no precision in a format spec, no constant-length slice)")
+    n = 0
+    for rel in backend_files(backend):
+        m = repo.mod(rel)
+        for node in ast.walk(m.tree):
+            if True:
+                fn_ = enclosing(node, (ast.FunctionDef,))
+                q = qualname(fn_) if fn_ is not None else '<module>'
+                specs = []
+                if isinstance(node, ast.FormattedValue) and node.format_spec is not None:
+                    sp = ''.join(v.value for v in node.format_spec.values if isinstance(v, ast.Constant))
+                    if all(isinstance(v, ast.Constant) for v in node.format_spec.values):
+                        specs.append((sp, norm(node.value)))
+                elif isinstance(node, ast.Constant) and isinstance(node.value, str) and '{' in node.value:
+                    try:
+                        for lit, fname, fspec, conv in string.Formatter().parse(node.value):
+                            if fname is not None and fspec:
+                                specs.append((fspec, fname))
+                    except ValueError:
+                        pass
+                    for mm in re.finditer(r"%[-+ 0#]*\d*\.(\d+)s", node.value if isinstance(parent(node), ast.BinOp) and isinstance(parent(node).op, ast.Mod) else ''):
+                        specs.append(('.' + mm.group(1), '%s'))
+                for sp, what in specs:
+                    t = _spec_truncates(sp)
+                    if t is None:
+                        continue
+                    n += 1
+                    cons = f"{{{what}:{sp}}}"
+                    if t:
+                        r.bad(m, q, cons, f"the format spec `{sp}` has a precision: an identifier longer than that is cut off, so the "
+                              f"emitted text refers to a name that was never declared (e.g. a 40-character port wire)", node.lineno)
+                    else:
+                        r.ok(m, q, cons)
+                if isinstance(node, ast.Subscript) and isinstance(node.slice, ast.Slice) and isinstance(node.slice.upper, ast.Constant) \
+                        and isinstance(node.slice.upper.value, int) and node.slice.upper.value > 0 and node.slice.step is None:
+                    # constant-length prefix of a value that ends up in a template
+                    p_ = parent(node)
+                    in_tmpl = isinstance(p_, ast.FormattedValue) or (isinstance(p_, (ast.keyword, ast.Call)) and any(
+                        isinstance(x, ast.Attribute) and x.attr == 'format' for x in ast.walk(enclosing(node, (ast.Call,)) or node))) or \
+                        (isinstance(p_, ast.BinOp) and isinstance(p_.op, ast.Add) and _stringy(p_))
+                    if in_tmpl:
+                        n += 1
+                        r.bad(m, q, norm(node)[:80], "a constant-length prefix of a value is inserted into the emitted text: longer "
+                              "identifiers are cut off", node.lineno)
+    # embedded examples (the SystemVerilog back-end uses no format specs today)
+    if _spec_truncates('^25.25') is not True or _spec_truncates(' <8') is not False or _spec_truncates('.3f') is not None:
+        raise AnalysisError("R-tr-ident-intact: format-spec oracle broken")
+    if n == 0:
+        r.ok(repo.mod(backend_files(backend)[-1]), '<back-end>', "no format spec with padding / precision and no constant-length prefix in "
+             "any template", nontrivial=False)
+    r.evaluations = n
+    r.require_floor(1 if backend == 'sv' else 8)
     return r
